@@ -88,10 +88,22 @@ var runePool = []rune{'a', 'Z', '0', '/', '+', '#', '$', ' ', '"', '%', '\\', '\
 	0x800, 0x20ac, 0xfffd, 0xd7ff, 0xe000, // three-byte
 	0x10000, 0x1f600, 0x10ffff} // four-byte
 
+// tokens that mean something to MQTT software (shared subscriptions, system
+// topics, wildcards, empty levels); strings are built around them now and then.
+var mqttTokens = []string{"$share/", "$share/g", "$share/workers", "$share/g/t", "$share//t", "$share/g/", "$SYS/", "$SYS/broker/#", "$queue/q", "+", "#", "+/+", "a/#", "/", "//", "/a", "a/", "a//b", "$", "$share", "+/#", "MQTT", "true", "5", "*********"}
+
 // UTF8 returns a well-formed UTF-8 string of exactly n bytes without U+0000.
 func UTF8(r *RNG, n int) string {
 	b := make([]byte, 0, n)
 	mode := r.Intn(3)
+	if r.Chance(1, 10) {
+		// starts with (or, if it fits exactly, is) an MQTT token
+		t := mqttTokens[r.Intn(len(mqttTokens))]
+		if len(t) <= n {
+			b = append(b, t...)
+			mode = 1
+		}
+	}
 	for len(b) < n {
 		var c rune
 		switch mode {
@@ -114,6 +126,11 @@ func UTF8(r *RNG, n int) string {
 // result is well-formed UTF-8 without U+0000; otherwise one string in four
 // is arbitrary bytes.
 func Str(r *RNG, size, min int, utf8Only bool) string {
+	if r.Chance(1, 16) {
+		if t := mqttTokens[r.Intn(len(mqttTokens))]; len(t) >= min {
+			return t
+		}
+	}
 	n := Len(r, size, min)
 	if !utf8Only && r.Chance(1, 4) {
 		return string(r.Bytes(n))
